@@ -61,14 +61,16 @@ theorem sampleAcquireStmts_eq : Gen.RespGuard.sampleAcquireStmts = [
     "return v0"] := rfl
 
 /-- the phout aggregator returns a sample to the pool AFTER its line is formatted and written (model `SampleOp.report`
-is the hand-over; nobody reads the sample after `releaseSample`) -/
-theorem phoutHandleStmts_eq : Gen.RespGuard.phoutHandleStmts = [
-    "v0.buf = appendPhout(v1, v0.buf, v0.config.ID)",
-    "v0.buf = append(v0.buf, '\\n')",
-    "_, v2 := v0.writer.Write(v0.buf)",
-    "v0.buf = v0.buf[:0]",
-    "releaseSample(v1)",
-    "return v2"] := rfl
+is the hand-over; nobody reads the sample after `releaseSample`). Order-free FACTS about the current source (round 6: the
+literal statement list broke on the legitimate repair 89739df, which flushes the writer before a line that would not
+fit): what else `handle` does is free; releasing before the line is formatted / written (mutant x17 of round 4), releasing
+twice or touching the sample afterwards is not. -/
+theorem phoutHandleFacts_eq : Gen.RespGuard.phoutHandleFacts = [
+    "releaseCalls=1",
+    "releaseAtTopLevel=true",
+    "lineFormattedBeforeRelease=true",
+    "lineWrittenBeforeRelease=true",
+    "sampleUsedAfterRelease=false"] := rfl
 
 /-! ## the shared iterator: both methods run under the mutex (model `iterStep true`) -/
 
